@@ -240,6 +240,7 @@ func (e *Engine) verifyFunc(vc *VC, fn *ssa.Function, c *Contract) {
 		vars[p.Name()] = v
 	}
 	sc := &SpecCtx{vc: vc, vars: vars, st: entry, old: entry, pkg: pkg}
+	vc.entryVars = vars
 	for _, r := range c.Requires {
 		vc.assert(sc.evalBool(r.X))
 	}
